@@ -656,7 +656,7 @@ pub fn exec(sc: &Sc) -> Outcome {
 }
 
 pub fn scenarios(tier: Tier) -> Vec<Sc> {
-    let thorough = tier == Tier::Thorough;
+    let thorough = tier >= Tier::Thorough;
     let mut out = vec![];
     for side in 0..2u8 {
         for how in 0..=12u8 {
@@ -677,7 +677,7 @@ pub fn scenarios(tier: Tier) -> Vec<Sc> {
     for p in 0..5u8 {
         out.push(Sc::BuilderPath { path: p });
     }
-    let ts: Vec<u64> = if thorough { vec![u64::MAX, 1_000, 5_000, 600_000, 0] } else { vec![u64::MAX, 1_000, 5_000, 0] };
+    let ts: Vec<u64> = if tier >= Tier::Deep { vec![u64::MAX, 200, 1_000, 2_000, 5_000, 29_000, 31_000, 600_000, 3_600_000, 0] } else if thorough { vec![u64::MAX, 1_000, 5_000, 600_000, 0] } else { vec![u64::MAX, 1_000, 5_000, 0] };
     for &tc in &ts {
         for &tsv in &ts {
             for mode in 0..2u8 {
@@ -686,6 +686,10 @@ pub fn scenarios(tier: Tier) -> Vec<Sc> {
                 let eff = [tc, tsv].iter().filter_map(|x| match *x { u64::MAX => Some(30_000), 0 => None, v => Some(v) }).min();
                 if let Some(t) = eff {
                     out.push(Sc::Idle { tc, ts: tsv, keep_alive: t / 3, mode });
+                    if tier >= Tier::Deep {
+                        out.push(Sc::Idle { tc, ts: tsv, keep_alive: t / 10, mode });
+                        out.push(Sc::Idle { tc, ts: tsv, keep_alive: t / 2, mode });
+                    }
                 }
             }
         }
